@@ -380,7 +380,7 @@ def staged_histories(ctx, scratch):
 
 
 def run(ctx):
-    ctx.check_proofs(["MPilot.Props.C19"])
+    ctx.check_proofs(["MPilot.Props.C19", "MPilot.Props.C19Hist"])
     model = common.Model()
     rng = ctx.rng
     scratch = common.scratch_repo()
